@@ -170,63 +170,70 @@ def check_convert(ctx, rep):
         rep.ok("R-DIM", "convert:formula", b.where(okb), "result = (x * self.scale + self.offset - to.offset) / to.scale (as a rational function)")
     else:
         rep.bad("R-DIM", "R-DIM:convert:formula", b.where(okb), "convert_to returns %s, which is not (x * self.scale + self.offset - to.offset) / to.scale: the conversion is not the affine map between the two units (nor its own inverse the other way)" % repr(val)[:160])
-    # U2 the guard: Ok only with equal dimensions or two byte units; Err only with different dimensions
+    # U2 the decision, as a truth table over the conditions the function tests: Ok <=> (both byte units) or (dimensions equal)
+    from rules import pathcond as PC
+
     n += 1
-    dims_ne = None
-    for bi in range(b.n):
-        t = b.term(bi)
-        if t["k"] == "switch":
-            d = G.describe(b, t["op"])
-            r = repr(d)
-            if d.kind == "call" and (d.v.endswith("PartialEq::ne") or d.v.endswith("PartialEq>::ne") or d.v.endswith("PartialEq::eq") or d.v.endswith("PartialEq>::eq")) and "_1*.dimensions" in r and "_3*.dimensions" in r:
-                dims_ne = (bi, d.v.endswith("ne"), t)
-    if dims_ne is None:
+    err_blocks = {bi for bi, _ in errs}
+    p_ok = PC.enumerate_paths(b, lambda x: x == okb)
+    p_err = PC.enumerate_paths(b, lambda x: x in err_blocks)
+    atoms = PC.atoms_of(p_ok + p_err)
+    A = next((a for a in atoms if a == "is_byte_unit(_1*)"), None)
+    B = next((a for a in atoms if a == "is_byte_unit(_3*)"), None)
+    D = next((a for a in atoms if a.startswith("eq(") and "_1*.dimensions" in a and "_3*.dimensions" in a), None)
+    if D is None:
         rep.bad("R-DIM", "R-DIM:convert:dimension-guard", b.where(), "convert_to never compares self.dimensions with to.dimensions: quantities of different dimensions convert into each other")
     else:
-        sw, is_ne, t = dims_ne
-        vals = {int(v): tb for v, tb in t["targets"]}
-        differ_edge = (t["otherwise"] if 0 in vals else vals.get(1)) if is_ne else vals.get(0)
-        same_edge = vals.get(0) if is_ne else (t["otherwise"] if 0 in vals else vals.get(1))
-        err_blocks = {bi for bi, _ in errs}
-        r_differ = b.reachable(differ_edge) if differ_edge is not None else set()
-        r_same = b.reachable(same_edge) if same_edge is not None else set()
-        ok_from_differ = okb in r_differ
-        err_from_same = bool(err_blocks & r_same)
-        if not ok_from_differ and not err_from_same and okb in r_same and (err_blocks & r_differ):
-            rep.ok("R-DIM", "convert:dimension-guard", b.where(sw), "different dimensions lead only to Err, equal dimensions only to Ok")
-        else:
-            rep.bad("R-DIM", "R-DIM:convert:dimension-guard", b.where(sw), "the dimension test does not separate success from failure (Ok reachable with different dimensions: %s; Err reachable with equal dimensions: %s)" % (ok_from_differ, err_from_same))
-        # the only way around the dimension test is the byte-unit escape on *both* units
-        n += 1
-        around = []
-        paths = []
+        def spec(asg):
+            return bool(asg.get(D)) or (A is not None and B is not None and bool(asg.get(A)) and bool(asg.get(B)))
 
-        def walk(x, conds, seen):
-            if x == okb:
-                paths.append(conds)
-                return
-            if x == sw or x in seen or len(paths) > 64:
-                return
-            tt = b.term(x)
-            if tt["k"] == "switch":
-                sc = G.switch_conditions(b, x)
-                for y in set([tb for _v, tb in tt["targets"]] + [tt["otherwise"]]):
-                    walk(y, conds + sc.get(y, []), seen | {x})
-            else:
-                for y in b.succ(x):
-                    walk(y, conds, seen | {x})
-
-        walk(0, [], frozenset())
-        for conds in paths:
-            who = {repr(g.a.args[0]) for g in conds if g.op == "True" and g.a is not None and g.a.kind == "call" and g.a.v.endswith("Unit::is_byte_unit") and g.a.args}
-            if not ({"_1*", "_3*"} <= who):
-                around.append((0, sorted(who)))
-        if around:
-            rep.bad("R-DIM", "R-DIM:convert:byte-escape", b.where(around[0][0]), "the dimension test can be bypassed without both units being byte units (is_byte_unit holds for %s only)" % around[0][1])
+        ok1, cx1 = PC.entails(p_ok, spec, atoms)
+        ok2, cx2 = PC.entails(p_err, lambda asg: not spec(asg), atoms)
+        if ok1 and ok2 and p_ok and p_err:
+            rep.ok("R-DIM", "convert:dimension-guard", b.where(okb), "truth table over %s: Ok exactly when the dimensions are equal or both units are byte units" % [x for x in (A, B, D) if x])
+        elif not ok1:
+            byte_only = cx1 is not None and not cx1.get(D) and (bool(cx1.get(A)) or bool(cx1.get(B)))
+            rep.bad("R-DIM", "R-DIM:convert:byte-escape" if byte_only else "R-DIM:convert:dimension-guard", b.where(okb), "convert_to succeeds under %s: units of different dimensions (not both byte units) convert into each other" % {k: v for k, v in (cx1 or {}).items()})
         else:
-            rep.ok("R-DIM", "convert:byte-escape", b.where(sw), "the dimension test is skipped only when self and to are both byte units")
+            rep.bad("R-DIM", "R-DIM:convert:dimension-guard", b.where(), "convert_to fails under %s although the dimensions are equal (or both are byte units)" % {k: v for k, v in (cx2 or {}).items()})
     return n
 
+
+
+def _origin_calls(body, val_or_place, depth=12, seen=None):
+    """names of the calls a value is computed from, following definitions of the locals involved (through projections,
+    references, copies, aggregates and call arguments)"""
+    out = set()
+    seen = seen if seen is not None else set()
+
+    def from_local(l, d):
+        if d <= 0 or l in seen:
+            return
+        seen.add(l)
+        for _bi, si, rv in body.defs().get(l, []):
+            if si == "term":
+                t = body.term(_bi)
+                out.add(strip_generics(mir.callee_name(t) or "?"))
+                for a in t["args"]:
+                    pl = mir.op_place(a)
+                    if pl is not None:
+                        from_local(pl["l"], d - 1)
+            else:
+                for key in ("op", "a", "b"):
+                    if key in rv and isinstance(rv[key], dict):
+                        pl = mir.op_place(rv[key])
+                        if pl is not None:
+                            from_local(pl["l"], d - 1)
+                if "place" in rv:
+                    from_local(rv["place"]["l"], d - 1)
+                for o in rv.get("ops", []):
+                    pl = mir.op_place(o)
+                    if pl is not None:
+                        from_local(pl["l"], d - 1)
+
+    if isinstance(val_or_place, dict):
+        from_local(val_or_place["l"], depth)
+    return out
 
 # ---------------------------------------------------------------------- U4 / U5 products and quotients of units
 def check_unit_products(ctx, rep):
@@ -262,43 +269,71 @@ def check_unit_products(ctx, rep):
             rep.ok("R-DIM", key, b.where(bi), "looked-up scale = self.scale %s other.scale" % ("*" if meth == "mul" else "/"))
         else:
             rep.bad("R-DIM", "R-DIM:" + key, b.where(bi), "Unit %s looks up scale %s, expected self.scale %s other.scale" % (meth, scale, "*" if meth == "mul" else "/"))
-        # every Ok result is an element of what match_units returned
+        # every Ok result is an element of what match_units returned: provenance of each value that can be returned as Ok
         n += 1
         key = "unit-%s:result-from-matches" % meth
         bad = []
-        for okb, val in _ret_payload(b, "Ok"):
-            r = repr(val)
-            m2 = re.match(r"^_(\d+)(\*| as Some\.0|\.\d+)*$", r)
-            if m2:
-                r = repr(G.describe_place(b, {"l": int(m2.group(1)), "p": []}))
-            if "match_units" not in r:
-                bad.append((okb, r[:100]))
-        if bad:
-            rep.bad("R-DIM", "R-DIM:" + key, b.where(bad[0][0]), "Unit %s can return %s, which is not one of the units match_units found for the computed dimension and scale" % (meth, bad[0][1]))
+        found = 0
+        for rb in range(b.n):
+            for st in b.blocks[rb]["stmts"]:
+                if st["k"] == "assign" and not st["lhs"]["p"] and st["lhs"]["l"] == 0:
+                    rv = st["rv"]
+                    if rv["k"] == "agg" and rv.get("variant") == "Ok" and rv["ops"]:
+                        found += 1
+                        pl = mir.op_place(rv["ops"][0])
+                        org = _origin_calls(b, pl) if pl is not None else set()
+                        if not any(x.endswith("units::match_units") for x in org):
+                            bad.append((rb, sorted(x.split("::")[-1] for x in org)[:4]))
+            t = b.term(rb)
+            if t["k"] == "call" and not t["dest"]["p"] and t["dest"]["l"] == 0:
+                nm = strip_generics(mir.callee_name(t) or "")
+                if nm.endswith("Option::ok_or_else") or nm.endswith("Option::ok_or") or nm.endswith("Option::map"):
+                    found += 1
+                    pl = mir.op_place(t["args"][0])
+                    org = _origin_calls(b, pl) if pl is not None else set()
+                    if not any(x.endswith("units::match_units") for x in org):
+                        bad.append((rb, sorted(x.split("::")[-1] for x in org)[:4]))
+        if bad or not found:
+            rep.bad("R-DIM", "R-DIM:" + key, b.where(bad[0][0]) if bad else b.where(), "Unit %s can return a unit that does not come from match_units(dim, scale) (computed from %s)" % (meth, bad[0][1] if bad else "nothing found"))
         else:
-            rep.ok("R-DIM", key, b.where(bi), "every Ok result is an element of match_units(dim, scale)")
-    # U5 match_units keeps a unit only if dimension and scale both match
+            rep.ok("R-DIM", key, b.where(bi), "every Ok result (%d sites) is taken from match_units(dim, scale)" % found)
+    # U5 match_units keeps a unit only if dimension and scale both match: truth table of the selecting closure
+    from rules import pathcond as PC
+
     mb = prog.get(U + "match_units")
     if mb is None:
         rep.gap("match_units", "-", "not found")
         return n
     n += 1
     okc = False
-    why = "no filtering closure found"
+    why = "no selecting closure found"
     for cid in prog.closures_of.get(mb.id, []):
         cb = prog.bodies[cid]
-        somes = _ret_payload(cb, "Some")
-        if not somes:
+        somes = {sb for sb, _v in _ret_payload(cb, "Some")}
+        nones = {sb for sb, _v in _ret_payload(cb, "None")}
+        if somes:
+            pos = PC.enumerate_paths(cb, lambda x: x in somes)
+            neg = PC.enumerate_paths(cb, lambda x: x in nones)
+        elif cb.rec.get("sig_output") == "bool" or cb.local_ty(0) == "bool":
+            rets = {x for x in range(cb.n) if cb.term(x)["k"] == "return"}
+            pos, neg = PC.bool_outcomes(PC.enumerate_paths(cb, lambda x: x in rets))
+        else:
             continue
-        why = "the Some(unit) result is not guarded by both tests"
-        for sb, _v in somes:
-            gs = G.guards_at(cb, sb)
-            dim_ok = any(g.op == "True" and g.a is not None and g.a.kind == "call" and g.a.v.endswith("::eq") and ".dimensions" in repr(g.a) for g in gs)
-            sc_ok = any(g.op == "True" and g.a is not None and g.a.kind == "call" and g.a.v.endswith("units::approx_eq") and ".scale" in repr(g.a) for g in gs)
-            if dim_ok and sc_ok:
-                okc = True
+        atoms = PC.atoms_of(pos + neg)
+        Dm = next((a for a in atoms if a.startswith("eq(") and ".dimensions" in a), None)
+        Sc = next((a for a in atoms if a.startswith("approx_eq(") and ".scale" in a), None)
+        if Dm is None or Sc is None:
+            why = "the selecting closure does not test both the dimensions and approx_eq of the scale (conditions: %s)" % atoms
+            continue
+        spec = lambda asg: bool(asg.get(Dm)) and bool(asg.get(Sc))  # noqa: E731
+        o1, c1 = PC.entails(pos, spec, atoms)
+        o2, c2 = PC.entails(neg, lambda asg: not spec(asg), atoms)
+        if o1 and o2 and pos:
+            okc = True
+        else:
+            why = "a unit is %s under %s" % ("kept" if not o1 else "dropped", c1 if not o1 else c2)
     if okc:
-        rep.ok("R-DIM", "match_units:filter", mb.where(), "a unit is kept only if its dimensions equal the wanted ones and its scale is approx_eq")
+        rep.ok("R-DIM", "match_units:filter", mb.where(), "a unit is kept exactly when its dimensions equal the wanted ones and its scale is approx_eq (truth table)")
     else:
         rep.bad("R-DIM", "R-DIM:match_units:filter", mb.where(), "match_units: %s" % why)
     return n
@@ -325,34 +360,31 @@ def check_number_ops(ctx, rep):
             rep.bad("R-DIM", "R-DIM:" + key, b.where(mk[0][0]) if mk else b.where(), "Number::%s computes %s, expected self.value %s other.value" % (meth, [repr(v) for v in vals], {"Add": "+", "Sub": "-", "Mul": "*", "Div": "/"}[op]))
         errs = _ret_payload(b, "Err")
         if meth in ("add", "sub"):
-            # fails exactly for two different units: the Err result lies under unit != unit, self.unit is Some, other.unit is Some
+            # fails exactly for two different units, both present: truth table over the conditions the function tests
+            from rules import pathcond as PC
+
             n += 1
             key = "number-%s:fails-for-different-units" % meth
-            ok_all = bool(errs)
-            why = "no Err result"
-            for eb, _v in errs:
-                gs = G.guards_at(b, eb)
-                differ = any(g.op == "False" and g.a is not None and g.a.kind == "call" and g.a.v.endswith("::eq") and "_1.unit" in repr(g.a) and "_2.unit" in repr(g.a) for g in gs)
-                s_some = any(g.op == "False" and g.a is not None and g.a.kind == "call" and g.a.v.endswith("Option::is_none") and "_1.unit" in repr(g.a) for g in gs)
-                o_some = any(g.op == "False" and g.a is not None and g.a.kind == "call" and g.a.v.endswith("Option::is_none") and "_2.unit" in repr(g.a) for g in gs)
-                if not (differ and s_some and o_some):
-                    ok_all = False
-                    why = "an Err result is not confined to `units differ and both are present` (differ=%s self-present=%s other-present=%s)" % (differ, s_some, o_some)
-            # and equal units never fail: no Err reachable from the equal edge
-            for bi in range(b.n):
-                t = b.term(bi)
-                if t["k"] == "switch":
-                    d = G.describe(b, t["op"])
-                    if d.kind == "call" and d.v.endswith("::eq") and "_1.unit" in repr(d) and "_2.unit" in repr(d):
-                        tv = {int(v): tb for v, tb in t["targets"]}
-                        eq_edge = t["otherwise"] if 0 in tv else tv.get(1)
-                        if eq_edge is not None and any(eb in b.reachable(eq_edge) for eb, _ in errs):
-                            ok_all = False
-                            why = "Err is reachable although the units are equal"
-            if ok_all:
-                rep.ok("R-DIM", key, b.where(errs[0][0]), "Err exactly on the path `units differ, both present`")
+            eblocks = {eb for eb, _v in errs}
+            mkblocks = {bi for bi, _t in mk}
+            p_err = PC.enumerate_paths(b, lambda x: x in eblocks)
+            p_ok = PC.enumerate_paths(b, lambda x: x in mkblocks)
+            atoms = PC.atoms_of(p_err + p_ok)
+            E = next((a for a in atoms if a.startswith("eq(") and "_1.unit" in a and "_2.unit" in a), None)
+            S1 = next((a for a in atoms if a.startswith("some(") and "_1.unit" in a and "_2.unit" not in a), None)
+            S2 = next((a for a in atoms if a.startswith("some(") and "_2.unit" in a and "_1.unit" not in a), None)
+            if not errs or E is None or S1 is None or S2 is None:
+                rep.bad("R-DIM", "R-DIM:" + key, b.where(), "Number::%s does not decide on `units equal`, `self has a unit`, `other has a unit` (conditions found: %s, Err results: %d)" % (meth, atoms, len(errs)))
             else:
-                rep.bad("R-DIM", "R-DIM:" + key, b.where(errs[0][0]) if errs else b.where(), "Number::%s: %s" % (meth, why))
+                fails = lambda asg: (not asg.get(E)) and bool(asg.get(S1)) and bool(asg.get(S2))  # noqa: E731
+                o1, c1 = PC.entails(p_err, fails, atoms)
+                o2, c2 = PC.entails(p_ok, lambda asg: not fails(asg), atoms)
+                if o1 and o2 and p_err and p_ok:
+                    rep.ok("R-DIM", key, b.where(errs[0][0]), "truth table: Err exactly when the units differ and both are present")
+                elif not o1:
+                    rep.bad("R-DIM", "R-DIM:" + key, b.where(errs[0][0]), "Number::%s fails under %s, where the units are equal or one is absent" % (meth, c1))
+                else:
+                    rep.bad("R-DIM", "R-DIM:" + key, b.where(), "Number::%s succeeds under %s: two different units are combined" % (meth, c2))
             # the unit of the result is one of the operands' units
             n += 1
             key = "number-%s:keeps-unit" % meth
